@@ -406,6 +406,17 @@ def main(argv):
         for f in r.failures:
             if prop in f.props:
                 failures.append((u, f))
+            elif info['status'] != 'undecided' and getattr(f, 'kind2', f.kind) != 'ensures':
+                # a failed assertion, invariant or call precondition is ASSUMED by everything after it in the same function:
+                # this property's obligations of that function were discharged under an unproved assumption, so they are
+                # not counted as proved (the failure itself is reported under the properties it is attributed to)
+                fprops = (f.func.props if f.func is not None and f.func.props else None) or u.props
+                if prop in fprops:
+                    info['status'] = 'undecided'
+                    info['reason'] = 'a proof step of %s failed (%s, reported under %s); the obligations after it rest on it' % (
+                        f.func.name if f.func else '?', f.name, ','.join(f.props))
+                    undecided.append({'unit': info['unit'], 'reason': info['reason']})
+                    obligations -= tot
     # vacuity
     vacuous = []
     for c in canaries:
